@@ -474,7 +474,7 @@ def judge(env, world, case, viol, classes) -> None:
                 # seen while waiting (cool-down / back-off) although the manager had no listener registered: allowed, not required
                 classes.add("mdns_forced_while_waiting")
                 justified_now.append((t, "matching mDNS record (force-delivered) while waiting", False))
-            elif e["matching"] and e["registered"] and not stopped and phase == "attempting" and cur_attempt is not None and any(
+            elif e["matching"] and not stopped and phase == "attempting" and cur_attempt is not None and any(
                     x[2] == "CLOSED" and x[0] < e["seq"] for x in conn_state.get(cur_attempt["idx"], [])):
                 # the attempt has already failed, the user's on_connect_error callback is still running
                 classes.add("mdns_during_error_callback")
